@@ -59,14 +59,25 @@ type atom struct {
 
 func errAtoms() []atom {
 	return []atom{
+		// errors.As(err, &interface{ Timeout() bool }) stops at the FIRST error of the chain that has a
+		// Timeout method; its answer is the feature (TimeoutSeen records that the question is settled)
 		{"operr", &net.OpError{Op: "dial", Net: "tcp", Err: errors.New("connection refused")}, func(f *Feat) {
 			if f.OpErr == 0 {
 				f.OpErr = 1
 			}
+			f.TimeoutSeen = true
 		}},
 		{"operr-timeout", &net.OpError{Op: "dial", Net: "tcp", Err: timeoutErr{}}, func(f *Feat) {
 			if f.OpErr == 0 {
 				f.OpErr = 2
+			}
+			if !f.TimeoutSeen {
+				f.Timeout, f.TimeoutSeen = true, true
+			}
+		}},
+		{"bare-timeout", timeoutErr{}, func(f *Feat) {
+			if !f.TimeoutSeen {
+				f.Timeout, f.TimeoutSeen = true, true
 			}
 		}},
 		{"record", tls.RecordHeaderError{Msg: "first record does not look like a TLS handshake", RecordHeader: [5]byte{'H', 'T', 'T', 'P', '/'}}, func(f *Feat) { f.RecordHdr = true }},
@@ -79,7 +90,11 @@ func errAtoms() []atom {
 		{"denied", forwarder.ErrProxyDenied, func(f *Feat) { f.Deny = true }},
 		{"timeframe", forwarder.ErrProxyOutsideAllowedTimeframe, func(f *Feat) { f.Prohibited = true }},
 		{"canceled", context.Canceled, func(f *Feat) { f.Canceled = true }},
-		{"deadline", context.DeadlineExceeded, func(f *Feat) {}},
+		{"deadline", context.DeadlineExceeded, func(f *Feat) {
+			if !f.TimeoutSeen {
+				f.Timeout, f.TimeoutSeen = true, true
+			}
+		}},
 		{"plain", errors.New("some failure\nwith a second line\r\nand a third"), func(f *Feat) {}},
 		{"eof", fmt.Errorf("unexpected EOF"), func(f *Feat) {}},
 	}
